@@ -196,7 +196,7 @@ func runC16(c *Ctx) {
 			return false
 		}
 		cc := ci.Common()
-		return cc.IsInvoke() && cc.Method.Name() == "Flush" && isNamed(cc.Value.Type(), "net/http", "Flusher")
+		return cc.IsInvoke() && N(cc.Method) == "Flush" && isNamed(cc.Value.Type(), "net/http", "Flusher")
 	}
 	{
 		// on the buf == nil edge the real flush is on every path
@@ -290,7 +290,7 @@ func runC16(c *Ctx) {
 				return "?"
 			}
 			for i := 0; i < it.NumMethods(); i++ {
-				switch it.Method(i).Name() {
+				switch N(it.Method(i)) {
 				case "Flush":
 					return "Flush"
 				case "FlushError":
@@ -358,7 +358,7 @@ func runC16(c *Ctx) {
 		isMsg := false
 		for _, l := range Origins(st.Val) {
 			if l.Kind == "alloc" {
-				if n, ok := l.V.Type().(*types.Pointer).Elem().(*types.Named); ok && (n.Obj().Name() == "envelopingWriter" || n.Obj().Name() == "transformingWriter") {
+				if n, ok := l.V.Type().(*types.Pointer).Elem().(*types.Named); ok && (N(n.Obj()) == "envelopingWriter" || N(n.Obj()) == "transformingWriter") {
 					isMsg = true
 				}
 			}
@@ -391,7 +391,7 @@ func runC16(c *Ctx) {
 					continue
 				}
 				for _, l := range Origins(cond) {
-					if l.Kind == "call" && l.Call.Common().IsInvoke() && l.Call.Common().Method.Name() == "endMustBeInHeaders" {
+					if l.Kind == "call" && l.Call.Common().IsInvoke() && N(l.Call.Common().Method) == "endMustBeInHeaders" {
 						heldUnderFlag = true
 					}
 				}
@@ -410,9 +410,9 @@ func runC16(c *Ctx) {
 	ebT, _ := envTypes(p)
 	clientEnvF := p.MustField("operation", "clientEnveloper")
 	for _, ra := range readerAdapters(p) {
-		rF := p.Field(ra.typ.Obj().Name(), "r")
+		rF := p.Field(N(ra.typ.Obj()), "r")
 		if rF == nil {
-			fatalf("anchor=%s.r (wrapped body) not found", ra.typ.Obj().Name())
+			fatalf("anchor=%s.r (wrapped body) not found", N(ra.typ.Obj()))
 		}
 		for _, fn := range SortedFuncs(p.Reach(ra.read)) {
 			if !p.inScope(fn) {
@@ -426,11 +426,11 @@ func runC16(c *Ctx) {
 					if f := LoadedField(a); f == rF {
 						bodyArgIdx = i
 					}
-					if prm, ok := strip(a).(*ssa.Parameter); ok && prm.Name() == "reader" && fn.Name() == "readRequestMessage" {
+					if prm, ok := strip(a).(*ssa.Parameter); ok && N(prm) == "reader" && N(fn) == "readRequestMessage" {
 						bodyArgIdx = i
 					}
 				}
-				if cc.IsInvoke() && LoadedField(cc.Value) == rF && cc.Method.Name() == "Read" {
+				if cc.IsInvoke() && LoadedField(cc.Value) == rF && N(cc.Method) == "Read" {
 					c.Bad("C16.4", FuncName(fn), "raw-body-read", call.Pos(), "the client body is read directly, outside the unit-bounded forms")
 					continue
 				}
@@ -448,7 +448,7 @@ func runC16(c *Ctx) {
 					if ok && !okEnv && dst.High != nil {
 						// a payload read sized by the decoded envelope length is also one unit
 						for _, l := range Origins(dst.High) {
-							if l.Kind == "call" && l.Call.Common().StaticCallee() != nil && l.Call.Common().StaticCallee().Name() == "processRequestEnvelope" {
+							if l.Kind == "call" && l.Call.Common().StaticCallee() != nil && N(l.Call.Common().StaticCallee()) == "processRequestEnvelope" {
 								okEnv = true
 							}
 						}
@@ -458,7 +458,7 @@ func runC16(c *Ctx) {
 				case "io.CopyN":
 					bounded := false
 					for _, l := range Origins(cc.Args[2]) {
-						if l.Kind == "call" && (l.Call.Common().StaticCallee() != nil && l.Call.Common().StaticCallee().Name() == "processRequestEnvelope") {
+						if l.Kind == "call" && (l.Call.Common().StaticCallee() != nil && N(l.Call.Common().StaticCallee()) == "processRequestEnvelope") {
 							bounded = true
 						}
 					}
@@ -530,7 +530,7 @@ func runC16(c *Ctx) {
 		return false
 	}
 	for _, ra := range readerAdapters(p) {
-		rF := p.Field(ra.typ.Obj().Name(), "r")
+		rF := p.Field(N(ra.typ.Obj()), "r")
 		for _, fn := range SortedFuncs(p.Reach(ra.read)) {
 			if !p.inScope(fn) {
 				continue
@@ -541,7 +541,7 @@ func runC16(c *Ctx) {
 					return
 				}
 				isBody := LoadedField(st.Val) == rF
-				if prm, ok := strip(st.Val).(*ssa.Parameter); ok && prm.Name() == "reader" && fn.Name() == "readRequestMessage" {
+				if prm, ok := strip(st.Val).(*ssa.Parameter); ok && N(prm) == "reader" && N(fn) == "readRequestMessage" {
 					isBody = true
 				}
 				if !isBody {
